@@ -364,10 +364,9 @@ func propC10(j *Job) {
 	// schedule with one deviation (the write loop may run inside the window in which the read
 	// loop has released the association lock)
 	{
-		cbCfgs := []c10Cfg{{mtu: 1191, arwnd: 3000, cbWrite: true}}
-		if j.Thorough() {
-			cbCfgs = append(cbCfgs, c10Cfg{mtu: 100, arwnd: 1500, cbWrite: true, il: true})
-		}
+		// (the small-MTU configuration is the one in which F34 showed: a SACK that acknowledges
+		// everything with a one-chunk a_rwnd, the callback writing a two-fragment message)
+		cbCfgs := []c10Cfg{{mtu: 1191, arwnd: 3000, cbWrite: true}, {mtu: 100, arwnd: 1500, cbWrite: true, il: true}}
 		alpha := []int{evWP, evW3, evSackAll, evSackAllSmall, evSackOne}
 		for _, cfg := range cbCfgs {
 			for _, e0 := range []int{evWP, evW3} {
